@@ -172,6 +172,7 @@ def gen_fp(rng, n, tier, fields=("Fq", "Fr")):
             lo = (-k * p) % (1 << bits)
             for hi in ((1 << 256) - 1, (1 << 64) - 1, ((1 << 64) - 1) << 64, ((1 << 128) - 1) << 64, (1 << (bits - 4)) - 1, p - 1, (1 << 192) - 1 - k, rng.getrandbits(64) | (((1 << 64) - 1) << 64)):
                 if hi < p: ts.append((hi << bits) | lo)
+        ts += mont_tie_inputs(p, bits, 64, rng, 1) + mont_tie_inputs(p, bits, 32, rng, 1)
         for t in ts:
             if t < topT: L.append("fp_mred %s %s" % (F, hx(t, 2 * bits)))
         # random sampling with forced rejections
@@ -199,6 +200,57 @@ def gen_fp(rng, n, tier, fields=("Fq", "Fr")):
             for a in singles[:20]:
                 L.append("fp_wrbe Fq %s" % hx(a, bits))
     return L
+
+
+def mont_tie_inputs(p, bits, W, rng, per_round=2):
+    """Montgomery-reduction inputs T < p*2^bits that make the word-serial algorithm (word size W) hit its rarest carry events: in a
+    chosen round i the sum (carry word of row i) + T[i+n] equals 2^W - 1 - d (d = 0, 1, 2), so that the pending carry and the
+    meta-carry of the previous round ripple through the word a second time (probability 2^-W for random operands); also one input in
+    which EVERY round ties.  Built by simulating the rounds and completing the free upper words of T."""
+    n = bits // W; mask = (1 << W) - 1
+    inv = (-pow(p, -1, 1 << W)) % (1 << W)
+    pw = [(p >> (W * j)) & mask for j in range(n)]
+    def run_until(t, upto):
+        """rounds 0..upto-1 on word list t (2n+1 words); returns carry words hi[0..upto-1] with the plain schoolbook bookkeeping"""
+        t = list(t); his = []
+        for i in range(upto):
+            u = (t[i] * inv) & mask; c = 0
+            for j in range(n):
+                v = t[i + j] + u * pw[j] + c; t[i + j] = v & mask; c = v >> W
+            his.append(c)
+            k = i + n; v = t[k] + c; t[k] = v & mask; c = v >> W; k += 1
+            while c and k < len(t): v = t[k] + c; t[k] = v & mask; c = v >> W; k += 1
+        return t, his
+    out = []
+    def finish(t):
+        T = sum(w << (W * k) for k, w in enumerate(t[:2 * n]))
+        if T < (p << bits): out.append(T)
+    for i in range(n):
+        for _ in range(per_round):
+            for d in (0, 1, 2):
+                t = [rng.getrandbits(W) for _ in range(n)] + [rng.choice([0, mask, rng.getrandbits(W)]) for _ in range(n)] + [0]
+                t[2 * n - 1] = rng.getrandbits(max(1, p.bit_length() - (n - 1) * W - 2))      # keep T below p*2^bits
+                # row i's carry word depends on words < i+n only (and on earlier rounds): simulate rounds 0..i on a copy whose word i+n is 0
+                probe = list(t); probe[i + n] = 0
+                st, his = run_until(probe, i)
+                u = (st[i] * inv) & mask; c = 0
+                for j in range(n):
+                    v = st[i + j] + u * pw[j] + c; c = v >> W
+                meta_in = st[i + n]            # what earlier rounds already carried into word i+n
+                t[i + n] = (mask - d - c - meta_in) & mask
+                finish(t)
+    # every round ties
+    t = [rng.getrandbits(W) for _ in range(n)] + [0] * n + [0]
+    for i in range(n - 1):
+        probe = list(t); probe[i + n] = 0
+        for k in range(i + n + 1, 2 * n): probe[k] = 0
+        st, his = run_until(probe, i)
+        u = (st[i] * inv) & mask; c = 0
+        for j in range(n):
+            v = st[i + j] + u * pw[j] + c; c = v >> W
+        t[i + n] = (mask - c - st[i + n]) & mask
+    finish(t)
+    return out
 
 # --------------------------------------------------------------------------- tower
 RINVQ = pow(RQ, -1, Q)      # the field element whose Montgomery REPRESENTATION is the integer 1
@@ -1257,6 +1309,7 @@ def gen_asm(rng, n, tier):
             lo = (-k * Q) % top
             for hi in ((1 << 256) - 1, (1 << 64) - 1, ((1 << 64) - 1) << 64, ((1 << 128) - 1) << 64, (1 << 380) - 1, Q - 1, (1 << 192) - 1 - k, rng.getrandbits(64) | (((1 << 64) - 1) << 64)):
                 if hi < Q: ts.append((hi << bits) | lo)
+        ts += mont_tie_inputs(Q, 384, 64, rng, 2)
         for t in ts:
             if t < topT: L.append("asm mred %s %s" % (fam, hx(t, 768)))
     return L
